@@ -117,6 +117,19 @@ def answer (line : String) : String :=
       let x := pList pF xs
       fListD (fun (v : Option Float) => match v with | some y => fF y | none => "ERR")
         ((cobylaConstraints (parseBounds bs)).map (fun g => g x))
+  | ["functor", tab, pts] =>
+      -- table x1,x2:f:g1,g2;…  points x1,x2;…   -> per point f:g1,g2 ; then the number of function calls
+      let t : List (List Float × Float × List Float) := (records tab).filterMap fun r => match r with
+        | [xs, f, gs] => some (pList pF xs, pF f, pList pF gs)
+        | _ => none
+      let func := fun (x : List Float) => match t.find? (fun e => sameList e.1 x) with
+        | some e => (e.2.1, e.2.2)
+        | none => (nanF, [])
+      let pts := (records pts).filterMap fun r => match r with
+        | [xs] => some (pList pF xs)
+        | _ => none
+      let r := functorRun func FunctorState.empty pts
+      String.intercalate ";" (r.1.map (fun o => s!"{fF o.1}:{fListD fF o.2}")) ++ s!" {r.2.ncalls}"
   | _ => "bad-op"
 
 def main : IO Unit := do loop (← IO.getStdin) answer
